@@ -12,9 +12,10 @@ import (
 
 func init() {
 	fw.Register(&fw.Property{
-		ID:     "C03",
-		Level:  "exploration",
-		Jitter: true,
+		ID:         "C03",
+		Level:      "exploration",
+		Jitter:     true,
+		RaceSample: true,
 		Rule: "(a) exhaustive symbol-pair tables: for each gap mode and four case layouts an alignment whose columns enumerate all 17x17 (reference symbol, query symbol) pairs at three positions each; (b) random alignments (width 1-2000, 1-40 records, IUPAC/gap-biased symbols, random line widths and case); " +
 			"distinct non-trivial = distinct (gap mode, reference symbol, query symbol, case layout) cells observed plus distinct (width class, record count) shapes of random alignments that contained at least one SNP and one ambiguous-compatible column",
 		Assumptions: []string{"the IUPAC base-set table in harness/internal/model/iupac.go is correct", "the symbol-pair table is exhaustive; alignment shapes are sampled"},
